@@ -117,7 +117,8 @@ def run(tier):
         outs = []
         for k in range(nproc):
             sh = shifts[k]
-            r_ = cli.run(files, workdir=d, env_extra=None if sh is None else {"LD_PRELOAD": shim, "OALV_TIME_OFFSET": str(sh)})
+            # every second run finds a longer file at the target (what an earlier compilation of another program may have left)
+            r_ = cli.run(files, workdir=d, target_exists=(k % 2 == 1), env_extra=None if sh is None else {"LD_PRELOAD": shim, "OALV_TIME_OFFSET": str(sh)})
             outs.append((r_["exit"], r_["target"]))
         return outs
     with cf.ThreadPoolExecutor(max_workers=8) as ex:
@@ -169,7 +170,7 @@ def run(tier):
     chk.cov["evaluations"] = len(progs_) * nproc + len(PROGRAMS) * 3
     chk.cov["distinct_nontrivial"] = nontrivial
     chk.cov["rule"] = ("8 directed programs exercising every collection on the output path with 2-5 entries (examples at three levels, references, ranges, methods, rec in "
-                       "functions, two imported modules) + accepted single-file programs of the repository corpus; each compiled by %d fresh oal-cli processes (the last three under a wall clock shifted by +400 days, +3 days, -200 days through an LD_PRELOAD shim) and 3 "
+                       "functions, two imported modules) + accepted single-file programs of the repository corpus; each compiled by %d fresh oal-cli processes (every second one over an existing, much longer target file; the last three under a wall clock shifted by +400 days, +3 days, -200 days through an LD_PRELOAD shim) and 3 "
                        "times in one process; non-trivial = accepted programs" % nproc)
     chk.sample({"program": PROGRAMS[0][1], "processes": nproc})
     chk.assumptions = [
